@@ -373,7 +373,10 @@ type Case struct {
 // "inv-foreign-east" / "inv-foreign-west": an invoice of another regime, east
 // (AE, or IN for AE itself) or west (MX, or CO for MX itself) of most others,
 // whose combos name this regime's country: the tax date is the same calendar day
-var vias = []string{"value", "inv-issue", "inv-issue-op", "inv-value", "inv-credit-preceding", "inv-foreign-east", "inv-foreign-west"}
+// "inv-line-period": issue_date = Date and the probed line covers a period of
+// its own (the Decoy day): a line's period describes the supply, it is not a
+// tax date
+var vias = []string{"value", "inv-issue", "inv-issue-op", "inv-value", "inv-credit-preceding", "inv-foreign-east", "inv-foreign-west", "inv-line-period"}
 
 // issuerFor gives the country and currency of the issuing regime of a foreign route.
 func issuerFor(via, own string) (string, string) {
@@ -521,7 +524,7 @@ func enumBoundaries(yield func(Case) bool) {
 				for _, tags := range tagVariants(rr.rate) {
 					for _, via := range vias {
 						c := Case{Regime: rr.reg.File, Cat: rr.cat.Code, Rate: rr.rate.Key, Date: d, Tags: tags, Ext: ext, Via: via}
-						if via == "inv-issue-op" || via == "inv-value" || via == "inv-credit-preceding" {
+						if via == "inv-issue-op" || via == "inv-value" || via == "inv-credit-preceding" || via == "inv-line-period" {
 							c.Decoy = pickDecoy(rr.rate, d, tags, ext)
 						}
 						if !yield(c) {
@@ -610,7 +613,7 @@ func genCase(t *rapid.T) Case {
 		c.Stale = rapid.Bool().Draw(t, "stale")
 		c.Free = rapid.SampledFrom([]string{"", "", "", "zero-price", "full-discount"}).Draw(t, "free")
 	}
-	if c.Via == "inv-issue-op" || c.Via == "inv-value" || c.Via == "inv-credit-preceding" {
+	if c.Via == "inv-issue-op" || c.Via == "inv-value" || c.Via == "inv-credit-preceding" || c.Via == "inv-line-period" {
 		if rapid.Bool().Draw(t, "decoy_any") {
 			c.Decoy = fmtDay(day0.AddDate(0, 0, rapid.IntRange(0, lastDayOffset).Draw(t, "decoy")))
 		} else {
@@ -736,6 +739,9 @@ func invoiceJSON(rr rateRef, c Case) []byte {
 	case "full-discount":
 		probed["discounts"] = []any{map[string]any{"percent": "100%", "reason": "gift"}}
 	}
+	if c.Via == "inv-line-period" && c.Decoy != "" {
+		probed["period"] = map[string]any{"start": c.Decoy, "end": c.Decoy}
+	}
 	lines = append(lines, probed)
 	doc["lines"] = lines
 	if len(charges) > 0 {
@@ -752,7 +758,7 @@ func invoiceJSON(rr rateRef, c Case) []byte {
 	switch c.Via {
 	case "inv-foreign-east", "inv-foreign-west":
 		doc["issue_date"] = c.Date
-	case "inv-issue":
+	case "inv-issue", "inv-line-period":
 		doc["issue_date"] = c.Date
 	case "inv-issue-op":
 		doc["issue_date"] = c.Date
@@ -1021,6 +1027,8 @@ func judge(c Case, o *vh.Obs) {
 		o.Failf("invoice:issue-date-used-instead-of-value-date", "%s (issue_date %s): expected %s, got %s which is the value for the issue date", where, c.Decoy, want, got)
 	case invoice && c.Via == "inv-credit-preceding" && got.same(expected(rr.rate, c.Decoy, c.Tags, ext)):
 		o.Failf("invoice:preceding-date-used-as-tax-date", "%s (credit note, preceding issued %s): expected %s, got %s which is the value for the preceding document's date", where, c.Decoy, want, got)
+	case invoice && c.Via == "inv-line-period" && got.same(expected(rr.rate, c.Decoy, c.Tags, ext)):
+		o.Failf("invoice:line-period-used-as-tax-date", "%s (line period %s): expected %s, got %s which is the value for the line's period", where, c.Decoy, want, got)
 	case invoice && c.Via == "inv-issue-op" && got.same(expected(rr.rate, c.Decoy, c.Tags, ext)):
 		o.Failf("invoice:op-date-used-as-tax-date", "%s (op_date %s): expected %s, got %s which is the value for the operation date", where, c.Decoy, want, got)
 	case onStart && want.Kind == "value" && rr.rate.Values[want.idx].Since == c.Date && got.same(prev):
@@ -1225,7 +1233,7 @@ func judgeUnpublished(c TableCase, o *vh.Obs) {
 func init() {
 	vh.Describe(
 		"Oracle = published tables data/regimes/*.json only: applicable values are those whose tags intersect the document tags (when tagged) and whose ext is contained in the combo's ext (when qualified); the answer is the applicable value with the greatest since <= tax date (undated = minus infinity, a value is in force ON its start date); none => nil / calculation error; exempt key => no percentage; equal start dates: a qualified value beats an unqualified one (class tie:qualified-beats-unqualified, own signature), other ties with different percentages only assert membership. "+
-			"Observed through tax.RateDef.Value on the registered regime and through the last line of an invoice built as JSON (preceded by sibling lines and charges with the same category and rate key and every other extension set the rate publishes, and none), parsed by gobl.Parse and calculated, with the tax date as issue_date, as issue_date next to a decoy op_date, as value_date overriding a decoy issue_date, as the issue_date of a credit note whose preceding document carries a decoy issue date, and as the issue_date of an invoice of another regime far to the east (AE / IN) or west (MX / CO) whose combos name this regime's country; half of the invoice cases carry a stale input percent/surcharge that must be replaced; in two fifths of the sampled cases (and at every boundary through the issue date) the probed line is worth nothing (a free item, or a 100% line discount) and must still get the table value. "+
+			"Observed through tax.RateDef.Value on the registered regime and through the last line of an invoice built as JSON (preceded by sibling lines and charges with the same category and rate key and every other extension set the rate publishes, and none), parsed by gobl.Parse and calculated, with the tax date as issue_date, as issue_date next to a decoy op_date, as value_date overriding a decoy issue_date, as the issue_date of a credit note whose preceding document carries a decoy issue date, as the issue_date of an invoice whose probed line covers a period of its own on a decoy day, and as the issue_date of an invoice of another regime far to the east (AE / IN) or west (MX / CO) whose combos name this regime's country; half of the invoice cases carry a stale input percent/surcharge that must be replaced; in two fifths of the sampled cases (and at every boundary through the issue date) the probed line is worth nothing (a free item, or a 100% line discount) and must still get the table value. "+
 			"boundaries (exhaustive): every published regime file x category x rate key x {since-1, since, since+1 of every value} + {0001-01-01, "+today+", 9999-12-31} x ext variants (none, each qualifier exactly / plus an unrelated pair / value altered, unrelated only) x tag variants (none, unrelated, each table tag) x 4 observation routes. random: arbitrary dates 0001..9999 (40% within 3 or 400 days of a start date, 40% 1985-2035, 20% anywhere), same variants, random decoys. tables: per published rate, strictly descending start dates with the undated value last among unqualified values and inside each identically-qualified group, and the registered Go table equal to the published one value by value; unpublished: every registered rate exists in the published files. "+
 			"Non-trivial: the date is within one day of a published start date, or before the first applicable value, or a qualified value competes with an applicable unqualified one (tables: more than one value).",
 		"data/regimes/*.json in the tree under test are the referee; the Go tables are only ever observed",
